@@ -101,7 +101,7 @@ def gen_obj(rng, kind, name, doc_style, annotated, n_params, defaults, ret, clas
 
 def gen_input_module(rng, mostly_good=True, n_entries=None, kinds=None):
     """returns dict(src, entries=[{key, feat}], import_lines, future, mapping_form)"""
-    n = n_entries if n_entries is not None else rng.choice([1, 1, 2, 2, 3, 4])
+    n = n_entries if n_entries is not None else rng.choice([1, 1, 2, 2, 3, 4, 0] if rng.random() < 0.2 else [1, 1, 2, 2, 3, 4])
     fnames = rng.sample(FUNC_NAMES, len(FUNC_NAMES))
     cnames = rng.sample(CLASS_NAMES, len(CLASS_NAMES))
     body, entries = [], []
@@ -154,7 +154,7 @@ def gen_case(rng, **force):
     mod = gen_input_module(rng, mostly_good=mostly_good, n_entries=force.get("n_entries"), kinds=force.get("kinds"))
     tags = ["good-shapes" if mostly_good else "any-shapes", "entries-%d" % len(mod["entries"])]
     r = rng.random()
-    type_ = force.get("type_") or ("class" if r < 0.4 else "argparse" if r < 0.75 else "function" if r < 0.97 else "klass")
+    type_ = force.get("type_") or ("class" if r < 0.4 else "argparse" if r < 0.75 else "function" if r < 0.99 else "klass")
     r = rng.random()
     tpl = force.get("name_tpl") or (rng.choice(TEMPLATES_GOOD[:2]) if r < 0.6 else rng.choice(TEMPLATES_GOOD) if r < 0.9
                                     else rng.choice(TEMPLATES_BAD))
@@ -234,11 +234,32 @@ def gen_cli_case(rng):
     return c
 
 
+HOIST_POOL = ['"""Doc."""', '""" """', "'s'", "from __future__ import annotations", "from __future__ import division",
+              "import os", "import sys as s", "from os import path", "from . import sibling", "from .. import up",
+              "import a.b.c", "X = 1", "def h():\n    pass", "class K:\n    pass", "if X:\n    import re",
+              "@dec\ndef g():\n    pass", "async def a():\n    pass", "__all__ = ['q']", "x: int = 3", "# comment",
+              "try:\n    import q\nexcept ImportError:\n    q = None", "from __future__ import print_function", "''"]
+
+
+def hoist_stress_case(rng):
+    """empty mapping, nothing imported: the content gen re-parses and hoists is the prepend text (any statements in any
+    order) followed by `__all__ = []`"""
+    stmts = [rng.choice(HOIST_POOL) for _ in range(rng.randint(0, 9))]
+    prepend = "\n".join(stmts) + rng.choice(["\n", "\n", "\n\n", ""])
+    c = gen_case(rng, n_entries=0, prepend=prepend, imports={"how": "none"}, type_=rng.choice(["class", "argparse", "function"]),
+                 name_tpl="{name}Config", mapping_ref="ok", existing=None if rng.random() < 0.85 else "OLD = 1\n",
+                 plain_keys=True)
+    c["tags"] = ["hoist-stress", "statements-%d" % min(len(stmts), 6)]
+    return c
+
+
 def gen(rng, n, tier="quick"):
     cases = []
     for i in range(n):
         r = rng.random()
-        if r < 0.62:
+        if r < 0.12:
+            cases.append(hoist_stress_case(rng))
+        elif r < 0.62:
             cases.append(gen_case(rng))
         elif r < 0.80:
             cases.append(gen_cli_case(rng))
